@@ -345,7 +345,8 @@ def make(cfg):
                     return mdl.eval(x.t, model_completion=True).as_long()
                 return {'prop': 'C17', 'clause': clause, 'msg': msg, 'harness': 'h_prof',
                         'site': 'profile_table_for_join',
-                        'n': val(n), 'attr': a, 'u': val(counts[a][0]), 'm': val(counts[a][1])}
+                        'n': val(n), 'attr': a, 'u': val(counts[a][0]), 'm': val(counts[a][1]),
+                        'profile_attrs': pa}
             return mk
         with repo.patched(b):
             try:
